@@ -13,6 +13,8 @@ def explore(run, lean):
                          "replayed on the Lean model and compared per step and on the final registry, queue contents, thread counts; "
                          "(b) fine-grained stream (implementation-side oracle only: the model delivers one publication atomically): subscriber deques are scheduling points, a second client re-subscribes registered queues while a publication is being delivered: every queue receives every publication exactly once")
     run.assumptions.append("queue.PriorityQueue.get returns the minimum for FabricEvent.__lt__; GIL atomicity of each Queue primitive")
+    ROUND6_RULE = '; scenarios whose signals are names the library uses internally (STOP_FABRIC_SIGNAL, meta signals, ...)'
+    run.extra["rule"] += ROUND6_RULE
 
 
 def replay(case):
